@@ -27,7 +27,7 @@ func TestVerifC02Core(t *testing.T) {
 	defer rec.finish(t)
 	env := rec.env
 	var caseIdx int64
-	K := env.pickN(6, 8)
+	K := env.pickN(6, 7)
 	inBubble(t, func() {
 		// ---- exhaustive fates of the first K datagrams --------------------------
 		// 16 base configurations x 4^K fate vectors; the vector space is split
@@ -115,7 +115,7 @@ func TestVerifC02Core(t *testing.T) {
 		rec.note("exhaustive_dimension", fmt.Sprintf("all 4^%d assignments of {deliver, drop, duplicate, deliver later than two RTOs} to the first %d datagrams (both directions, emission order) x 16 configurations (nodelay x nc x driving style x stream/message); everything else is sampled", K, K))
 
 		// ---- sampled: long transfers, outages, every profile ---------------------
-		for q := 0; q < env.pickN(480, 16000); q++ {
+		for q := 0; q < env.pickN(480, 8000); q++ {
 			idx := caseIdx
 			caseIdx++
 			if !env.mine(idx) {
